@@ -1,6 +1,7 @@
 package main
 
 import (
+	"go/printer"
 	"encoding/json"
 	"go/ast"
 	"fmt"
@@ -83,6 +84,14 @@ func main() {
 		for _, id := range ids {
 			p := props[id]
 			fmt.Printf("%s quick=%s thorough=+%s\n", id, strings.Join(p.Quick, ","), strings.Join(p.Thorough, ","))
+		}
+	case "src":
+		// the normalised source of one function as the analyses see it
+		c := NewCtx("adhoc", tier, repo, verif)
+		p := c.G()
+		if fd := p.Func(pos[0]); fd != nil {
+			printer.Fprint(os.Stdout, p.Fset, fd)
+			fmt.Println()
 		}
 	case "sym":
 		c := NewCtx("adhoc", tier, repo, verif)
